@@ -1,4 +1,5 @@
 import ColaVerif.Model.Index
+import ColaVerif.Model.Dtype
 
 /-!
 # Operator algebra (C03): the Python overloads of `operator_base.py:119-145` and the rewriting
@@ -86,11 +87,23 @@ def mkSum (Ms : List (Op R)) : Except String (Val R) :=
 def mkKronSum (Ms : List (Op R)) : Except String (Val R) :=
   if Ms.all (fun N => N.rows == N.cols) then .ok (.op (.kronsum Ms)) else .error "error:ValueError"
 
-/-- `cola.fns.dot(A, B)` (after `__matmul__`'s shape assertion) -/
+/-- `_absorbs(A, I)` of `cola/fns.py`: dropping the identity factor `I` does not lose the promoted
+dtype of the product (`promote_types(A.dtype, I.dtype) == A.dtype`) -/
+def absorbs (A I : Op R) : Bool := DType.promote A.dtype I.dtype == A.dtype
+
+/-- `cola.fns.dot(A, B)` (after `__matmul__`'s shape assertion).  The three `Identity` rules
+(precedence 1) drop the identity only when the other operand already has the promoted dtype;
+otherwise they call the `Product` constructor on the two operands as they are (no flattening),
+and for two identities build a fresh `Identity(B.shape, promoted dtype)`. -/
 def dotRule (A B : Op R) : Except String (Val R) :=
   if A.cols != B.rows then .error "error:AssertionError" else
-  if isIdentity A then .ok (.op B)            -- (Identity, LinearOperator) and (Identity, Identity)
-  else if isIdentity B then .ok (.op A)       -- (LinearOperator, Identity)
+  if isIdentity A then
+    if isIdentity B then                       -- (Identity, Identity)
+      if absorbs B A then .ok (.op B) else .ok (.op (.eye (DType.promote A.dtype B.dtype) B.rows))
+    else                                       -- (Identity, LinearOperator)
+      if absorbs B A then .ok (.op B) else mkProd [A, B]
+  else if isIdentity B then                    -- (LinearOperator, Identity)
+    if absorbs A B then .ok (.op A) else mkProd [A, B]
   else
     match prodMembers A, prodMembers B with
     | some Ms, some Ns => mkProd (Ms ++ Ns)
@@ -280,5 +293,110 @@ def meaning : Ex R → Option (Nat × Nat × MatF R)
   | lazify x => meaning x
   | densify x => meaning x
   | nodispatch x => meaning x
+
+mutual
+/-- some node of the expression satisfies `p` -/
+def anyNode (p : Ex R → Bool) : Ex R → Bool
+  | op A => p (op A)
+  | arr dt r c a => p (arr dt r c a)
+  | add x y => p (add x y) || anyNode p x || anyNode p y
+  | sub x y => p (sub x y) || anyNode p x || anyNode p y
+  | neg x => p (neg x) || anyNode p x
+  | smul c x => p (smul c x) || anyNode p x
+  | muls x c => p (muls x c) || anyNode p x
+  | divs x c => p (divs x c) || anyNode p x
+  | sdiv c x => p (sdiv c x) || anyNode p x
+  | addz x => p (addz x) || anyNode p x
+  | matmul x y => p (matmul x y) || anyNode p x || anyNode p y
+  | kron x y => p (kron x y) || anyNode p x || anyNode p y
+  | kronsum x y => p (kronsum x y) || anyNode p x || anyNode p y
+  | bdiag xs => p (bdiag xs) || anyNodeL p xs
+  | sumList xs => p (sumList xs) || anyNodeL p xs
+  | lazify x => p (lazify x) || anyNode p x
+  | densify x => p (densify x) || anyNode p x
+  | nodispatch x => p (nodispatch x) || anyNode p x
+def anyNodeL (p : Ex R → Bool) : List (Ex R) → Bool
+  | [] => false
+  | x :: xs => anyNode p x || anyNodeL p xs
+end
+
+/-- the node is a `c / A` (clause `scalar-divided-by-operator`) -/
+def isSdiv : Ex R → Bool
+  | sdiv _ _ => true
+  | _ => false
+
+/-- at this node `mul(A, c)` is invoked with a complex scalar on a real-dtype operator (clause
+`complex-scalar-real-operator`) -/
+def lossyNode (re : R → R) : Ex R → Bool
+  | smul c x => match eval re x with | .ok (.op A) => c.cplx && !A.dtype.isComplex | _ => false
+  | muls x c => match eval re x with | .ok (.op A) => c.cplx && !A.dtype.isComplex | _ => false
+  | divs x c => match eval re x with | .ok (.op A) => c.cplx && !A.dtype.isComplex | _ => false
+  | sdiv c x => match eval re x with | .ok (.op A) => c.cplx && !A.dtype.isComplex | _ => false
+  | _ => false
+
+/-- the named clauses (recorded findings of C03) the expression runs into; `[]` iff the clause
+hypotheses `NoScalarOverOp`, `NoLossyComplex` of `C03_sound_partial` hold
+(`Ex.clauses_nil_iff`, Lemmas/ExprSound.lean) -/
+def clauses (re : R → R) (e : Ex R) : List String :=
+  (if anyNode isSdiv e then ["scalar-divided-by-operator"] else []) ++
+  (if anyNode (lossyNode re) e then ["complex-scalar-real-operator"] else [])
+
+mutual
+/-- does the expression denote a plain array (computed by NumPy) rather than an operator?
+Purely syntactic: operator ∘ array products and `to_dense` give arrays, every cola combinator
+gives an operator, `+`/`-` give an array only for two arrays. -/
+def yieldsArr : Ex R → Bool
+  | op _ => false
+  | arr .. => true
+  | add x y => yieldsArr x && yieldsArr y
+  | sub x y => yieldsArr x && yieldsArr y
+  | neg x => yieldsArr x
+  | smul _ x => yieldsArr x
+  | muls x _ => yieldsArr x
+  | divs x _ => yieldsArr x
+  | sdiv _ x => yieldsArr x
+  | addz x => yieldsArr x
+  | matmul x y => yieldsArr x || yieldsArr y
+  | kron _ _ => false
+  | kronsum _ _ => false
+  | bdiag _ => false
+  | sumList xs => yieldsArrL xs
+  | lazify _ => false
+  | densify _ => true
+  | nodispatch _ => false
+def yieldsArrL : List (Ex R) → Bool
+  | [] => true
+  | x :: xs => yieldsArr x && yieldsArrL xs
+end
+
+mutual
+/-- the dtype of the matrix expression (SPECIFICATION, written without reference to `eval`):
+an operator leaf contributes the join of its leaf dtypes (`Op.dtypeSpec`); binary forms take the
+NumPy promotion of the operand dtypes; a scalar multiple or quotient of an operator keeps the
+operator's dtype, of a plain array it follows NumPy's array-times-scalar promotion
+(`arrScalDtype`: Python scalars are weak, NumPy scalars / 0-d arrays are float64 / complex128) -/
+def dtypeSpec : Ex R → DType
+  | op A => A.dtypeSpec
+  | arr dt _ _ _ => dt
+  | add x y => DType.promote (dtypeSpec x) (dtypeSpec y)
+  | sub x y => DType.promote (dtypeSpec x) (dtypeSpec y)
+  | neg x => dtypeSpec x
+  | smul c x => if yieldsArr x then arrScalDtype (dtypeSpec x) c else dtypeSpec x
+  | muls x c => if yieldsArr x then arrScalDtype (dtypeSpec x) c else dtypeSpec x
+  | divs x c => if yieldsArr x then arrScalDtype (dtypeSpec x) c else dtypeSpec x
+  | sdiv _ x => dtypeSpec x
+  | addz x => dtypeSpec x
+  | matmul x y => DType.promote (dtypeSpec x) (dtypeSpec y)
+  | kron x y => DType.promote (dtypeSpec x) (dtypeSpec y)
+  | kronsum x y => DType.promote (dtypeSpec x) (dtypeSpec y)
+  | bdiag xs => dtypeSpecL xs
+  | sumList xs => dtypeSpecL xs
+  | lazify x => dtypeSpec x
+  | densify x => dtypeSpec x
+  | nodispatch x => dtypeSpec x
+def dtypeSpecL : List (Ex R) → DType
+  | [] => .f32
+  | x :: xs => DType.promote (dtypeSpec x) (dtypeSpecL xs)
+end
 
 end Ex
